@@ -195,6 +195,47 @@ theorem pm_sliceBool_marshal (b vals : List Nat) (hv : ∀ x ∈ vals, x < 256) 
   simp only [hloop]
   rfl
 
+/-- the unsigned fixed-width array cases of `Value.MarshalAppend` (`TypeSliceUint16/32/64`): every element in the byte order
+chosen by `arch == LittleEndian`, i.e. `vals.flatMap (Fit.Value.enc w arch)` — what `Fit.Value.marshal` gives for
+`.sliceUint16 / 32 / 64 vals` — for every array, architecture byte and buffer; the loops do not panic -/
+theorem pm_sliceUint_marshal (arch : Nat) (b vals : List Nat) :
+    Value_MarshalAppend_sliceUint16 arch b vals =
+      some { b := b ++ vals.flatMap (Fit.Value.enc 2 arch), ret := some (b ++ vals.flatMap (Fit.Value.enc 2 arch)) } ∧
+    Value_MarshalAppend_sliceUint32 arch b vals =
+      some { b := b ++ vals.flatMap (Fit.Value.enc 4 arch), ret := some (b ++ vals.flatMap (Fit.Value.enc 4 arch)) } ∧
+    Value_MarshalAppend_sliceUint64 arch b vals =
+      some { b := b ++ vals.flatMap (Fit.Value.enc 8 arch), ret := some (b ++ vals.flatMap (Fit.Value.enc 8 arch)) } := by
+  have e16 : ∀ n, Go.le16 n = Fit.Value.leBytes 2 n := by
+    intro n; simp only [Go.le16, Fit.Value.leBytes]
+  have e32 : ∀ n, Go.le32 n = Fit.Value.leBytes 4 n := by
+    intro n; simp only [Go.le32, Fit.Value.leBytes, List.cons.injEq, and_true, true_and]; omega
+  have e64 : ∀ n, Go.le64 n = Fit.Value.leBytes 8 n := by
+    intro n
+    simp only [Go.le64, Go.le32, Fit.Value.leBytes, List.cons_append, List.nil_append, List.cons.injEq, and_true, true_and]; omega
+  have r16 : ∀ n, Go.be16 n = (Fit.Value.leBytes 2 n).reverse := by
+    intro n; rw [← e16]; simp [Go.le16, Go.be16]
+  have r32 : ∀ n, Go.be32 n = (Fit.Value.leBytes 4 n).reverse := by
+    intro n; rw [← e32]; simp [Go.le32, Go.be32]
+  have r64 : ∀ n, Go.be64 n = (Fit.Value.leBytes 8 n).reverse := by
+    intro n; rw [← e64]; simp [Go.le64, Go.le32, Go.be64, Go.be32]
+  unfold Value_MarshalAppend_sliceUint16 Value_MarshalAppend_sliceUint32 Value_MarshalAppend_sliceUint64 Fit.Value.enc
+    Fit.Gen.littleEndian
+  by_cases ha : arch = 0
+  · refine ⟨?_, ?_, ?_⟩ <;> simp [ha, -List.append_assoc]
+    · go_loop vals (fun x b => some (ForInStep.yield (b ++ Go.le16 x)))
+      rw [forIn_some_yield, foldl_append_flatMap]; simp [funext e16]
+    · go_loop vals (fun x b => some (ForInStep.yield (b ++ Go.le32 x)))
+      rw [forIn_some_yield, foldl_append_flatMap]; simp [funext e32]
+    · go_loop vals (fun x b => some (ForInStep.yield (b ++ Go.le64 x)))
+      rw [forIn_some_yield, foldl_append_flatMap]; simp [funext e64]
+  · refine ⟨?_, ?_, ?_⟩ <;> simp [ha, -List.append_assoc]
+    · go_loop vals (fun x b => some (ForInStep.yield (b ++ Go.be16 x)))
+      rw [forIn_some_yield, foldl_append_flatMap]; simp [funext r16]
+    · go_loop vals (fun x b => some (ForInStep.yield (b ++ Go.be32 x)))
+      rw [forIn_some_yield, foldl_append_flatMap]; simp [funext r32]
+    · go_loop vals (fun x b => some (ForInStep.yield (b ++ Go.be64 x)))
+      rw [forIn_some_yield, foldl_append_flatMap]; simp [funext r64]
+
 /-- `UnmarshalValue` on a `typedef.Bool` array: the element appended for byte `i` is `Fit.Value.clampBool bs[i]`, and the
 index expression does not panic for an index of the loop -/
 theorem pm_bool_unmarshal (bs vals : List Nat) (i : Nat) (hi : i < bs.length) :
